@@ -5,3 +5,4 @@ import SemverProofs.GenEquiv.Range
 import SemverProofs.GenEquiv.Tables
 import SemverProofs.GenEquiv.VersionParse
 import SemverProofs.GenEquiv.RangeParse
+import SemverProofs.GenEquiv.Location
